@@ -2,6 +2,8 @@ package server
 
 import (
 	"fmt"
+	"runtime"
+	"sync"
 	"testing"
 	"testing/synctest"
 
@@ -17,7 +19,7 @@ import (
 // registered for its UID and is listed there; a record that is not registered has no live session.
 
 type c17rOp struct {
-	K   string // connect lateclose peerclose terminate upload exhaust topup
+	K   string // connect connect|| lateclose peerclose terminate upload exhaust topup connect+close
 	U   int
 	Sid uint32
 	I   int
@@ -48,8 +50,41 @@ func c17rRun(sc c17rCase) (vk.Result, error) {
 	}
 	var recs []rec
 	var sess []ses
-	staleOp := false
+	staleOp, duringAuth, simultaneous := false, false, false
+	fm.userYield = 300
 	cfg := mux.SessionConfig{Obfuscator: mux.Obfuscator{}, Valve: nil, Unordered: false}
+	var bk sync.Mutex // guards recs and sess while admissions run in parallel
+	connect := func(u int, sid uint32, phase string, par bool) error {
+		for {
+			r, err := panel.GetUser(c15UID(u))
+			if err != nil {
+				return nil // exhausted user: refused
+			}
+			s, existing, err := r.GetSession(sid, cfg)
+			if err == ErrUserTerminated {
+				if !par {
+					return vk.Violatef("%s: the record registered for user %d is a terminated one: the user cannot connect any more", phase, u)
+				}
+				continue // as dispatchConnection does
+			}
+			bk.Lock()
+			ri := -1
+			for j := range recs {
+				if recs[j].r == r {
+					ri = j
+				}
+			}
+			if ri < 0 {
+				recs = append(recs, rec{u, r})
+				ri = len(recs) - 1
+			}
+			if err == nil && !existing {
+				sess = append(sess, ses{ri, sid, s})
+			}
+			bk.Unlock()
+			return nil // err != nil: refused by the user manager (no credit, cap)
+		}
+	}
 	check := func(phase string) error {
 		for i, s := range sess {
 			if s.s.IsClosed() {
@@ -76,31 +111,43 @@ func c17rRun(sc c17rCase) (vk.Result, error) {
 	for i, op := range sc.Ops {
 		phase := fmt.Sprintf("after op %d (%s)", i, op.K)
 		switch op.K {
-		case "connect":
-			u := op.U % sc.Users
-			r, err := panel.GetUser(c15UID(u))
-			if err != nil {
-				break // exhausted user: refused
-			}
-			ri := -1
-			for j := range recs {
-				if recs[j].r == r {
-					ri = j
+		case "connect", "connect+close":
+			if op.K == "connect+close" && len(sess) > 0 {
+				// while this admission's authorisation query runs, the goroutine serving another session reports its end
+				s := sess[op.I%len(sess)]
+				fm.mu.Lock()
+				fm.onAuthorise = func() {
+					go recs[s.rec].r.CloseSession(s.sid, "")
+					for k := 0; k < 200; k++ {
+						runtime.Gosched()
+					}
 				}
+				fm.mu.Unlock()
+				duringAuth = true
 			}
-			if ri < 0 {
-				recs = append(recs, rec{u, r})
-				ri = len(recs) - 1
+			u := op.U % sc.Users
+			if err := connect(u, op.Sid, phase, op.K == "connect+close"); err != nil {
+				return res, err
 			}
-			s, existing, err := r.GetSession(op.Sid, cfg)
-			if err == ErrUserTerminated {
-				return res, vk.Violatef("%s: the record registered for user %d is a terminated one: the user cannot connect any more", phase, u)
+		case "connect||":
+			// two connections of one user with different session ids are admitted at the same time (the user database
+			// "takes a while": the fake yields inside AuthenticateUser until the second caller arrives)
+			u := op.U % sc.Users
+			var cerr [2]error
+			var cwg sync.WaitGroup
+			for k := 0; k < 2; k++ {
+				cwg.Add(1)
+				go func(k int) {
+					defer cwg.Done()
+					cerr[k] = connect(u, op.Sid+uint32(k), phase, true)
+				}(k)
 			}
-			if err != nil {
-				break // refused by the user manager (no credit, cap)
-			}
-			if !existing {
-				sess = append(sess, ses{ri, op.Sid, s})
+			cwg.Wait()
+			simultaneous = true
+			for _, e := range cerr {
+				if e != nil {
+					return res, e
+				}
 			}
 		case "lateclose":
 			if len(sess) == 0 {
@@ -149,7 +196,16 @@ func c17rRun(sc c17rCase) (vk.Result, error) {
 	for _, s := range sess {
 		s.s.Close()
 	}
-	res.NonTrivial = staleOp
+	res.NonTrivial = staleOp || duringAuth || simultaneous
+	if simultaneous {
+		res.Labels = append(res.Labels, "simultaneous-admissions-of-one-user")
+	}
+	if duringAuth {
+		res.Labels = append(res.Labels, "session-end-reported-during-an-authorisation-query")
+	}
+	fm.mu.Lock()
+	fm.onAuthorise = nil
+	fm.mu.Unlock()
 	if staleOp {
 		res.Labels = append(res.Labels, "operation-on-a-replaced-record")
 	}
@@ -164,8 +220,12 @@ func TestVerif_C17_Records(t *testing.T) {
 			k := rapid.IntRange(0, 99).Draw(rt, "kind")
 			op := c17rOp{U: rapid.IntRange(0, sc.Users-1).Draw(rt, "u"), Sid: rapid.Uint32Range(1, 3).Draw(rt, "sid"), I: rapid.IntRange(0, 7).Draw(rt, "i")}
 			switch {
-			case k < 35:
+			case k < 20:
 				op.K = "connect"
+			case k < 25:
+				op.K = "connect||"
+			case k < 35:
+				op.K = "connect+close"
 			case k < 55:
 				op.K = "lateclose"
 			case k < 65:
